@@ -639,6 +639,12 @@ theorem forceWrite_rom_ram (m : Mem) (a : BitVec 16) (v : BitVec 8) (p : Nat) (h
   unfold Mem.forceWrite
   rw [hp]
 
+/-- the repaired poke of a RAM address is exactly `write_internal` (no clock passes, nothing is rendered) -/
+theorem poke_fixed_ram (c : Ctl) (a : BitVec 16) (v : BitVec 8) (p : Nat) (hp : c.mem.getPage a = .ram p) :
+    c.poke true a v = c.writeInternal a v := by
+  unfold Ctl.poke Ctl.writeInternal
+  simp only [if_true, forceWrite_ram _ _ _ _ hp]
+
 /-- the repaired poke keeps the cache coherent -/
 theorem poke_fixed_good (c : Ctl) (h : c.WF) (hc : c.Coherent) (a : BitVec 16) (v : BitVec 8) :
     (c.poke true a v).WF ∧ (c.poke true a v).Coherent := by
